@@ -18,7 +18,7 @@ replayer's state is the model's state `m` plus bookkeeping (threads inside a cal
   to the ONE system `sys specParams` whose protected data are the abstract sequence and whose bodies are `Lists.Spec.step`;
   `clist_replay_sound`: an accepted log is (the image under `vals` of) a run of `sys specParams` from its initial state
   with the observed history.
-  For `cpq` the gluing is missing (see `cpq_replay_prun_partial`).
+  For `cpq` the pieces are glued in `Driver/Ev/CPQSoundC06.lean` (`cpq_replay_sound`: ONE oracle, exactly).
 
 The entries are the raw log lines as `Driver.EvTrace.event` receives them and `replay` is the driver's own dispatch
 (`event_cow`, `event_clist`, `event_cpq`).  Corollaries through the C06 theorems: `Driver/Ev/LockWrappedSoundC06.lean`.
@@ -517,13 +517,10 @@ theorem replay1_sound (cmp : Cmp) (capacity : Int) (s : State) (e : Entry) (s' :
     scenario's; one growth oracle `g` per logged event) from the model's initial state, with exactly the observed invocations
     and responses as its history.
 
-    PARTIAL.  The full statement would be
-      `∃ g ls, (sys (rawParams cmp capacity g)).run (sys (rawParams cmp capacity g)).init ls = some s'.lw.m ∧ history ls = …`
-    (one oracle for the whole log, as `c06_cpq_heap_bag_linearizable` needs).  Missing: the construction of the single
-    oracle `g n q op` from the per-event ones — it exists because the protected data carry the count `n` of writer bodies
-    executed, every writer body increments it, and (invariant `Inv.snap`, to be re-proved for piecewise runs) a writer's
-    snapshot is the current data, so no two writer bodies of a run see the same `n`; read-only bodies do not depend on the
-    oracle. -/
+    PARTIAL on its own (one oracle per piece); completed in `Driver/Ev/CPQSoundC06.lean`: `cpq_replay_sound` constructs the
+    single oracle `g n q op` from the per-event ones (the protected data carry the count `n` of writer bodies executed, every
+    writer body increments it and, by `Inv.snap`, sees the current data, so no two writer bodies see the same `n`; read-only
+    bodies do not depend on the oracle). -/
 theorem cpq_replay_prun_partial (args : List String) (s0 : State) (hinit : init args = .ok s0)
     (es : List Entry) (s' : State) (h : replay s0 es = .ok s') :
     s0.lw.m = (sys (rawParams s0.cmp s0.capacity fun _ _ _ => 0)).init ∧
